@@ -94,7 +94,13 @@ def run_ping(seed, opts, stepped=False, duration=4):
     spec = importlib.util.spec_from_file_location("c06_ping", str(REPO / "showcases" / "ping-pong" / "ping.py"))
     mod = importlib.util.module_from_spec(spec)
     spec.loader.exec_module(mod)
-    log = []
+    class CappedLog(list):
+        def append(self, x):
+            if len(self) > 60000:
+                raise simimpl.Runaway("ping-pong showcase: more than 60000 callbacks")
+            super().append(x)
+
+    log = CappedLog()
 
     class RecPing(mod.PingProtocol):
         def initialize(self):
@@ -138,7 +144,7 @@ def run_ping(seed, opts, stepped=False, duration=4):
         crash = f"{type(e).__name__}: {e}"
     finally:
         simimpl.quiet_logging()
-    return {"log": log, "crash": crash}
+    return {"log": list(log), "crash": crash}
 
 
 class C06(SimCheck):
